@@ -3,6 +3,7 @@ from core import Case
 from props.tr31util import VERS, rb, rs, rand_blocks, make_header, header_tuple, wrap_case, unwrap_case, PRINTABLE, tr31, Session, pick_id
 from core import call_impl
 
+
 OBLIGATIONS = ["Psec.Props.C01.wrap_unwrap", "Psec.Props.C01.wrap_header_string", "Psec.Props.C01.wrap_readonly", "Psec.Tr31.blocks_load_dump", "Psec.Tr31.load_assemble", "Psec.Tr31.wrap_facts", "Psec.Tr31.extractKey_clear", "Psec.Props.C01.wrap_unwrap_ref"]
 TABLE_OBLIGATIONS = ["Psec.Tables.wrapDispatch_by_table", "Psec.Tables.unwrapDispatch_by_table", "Psec.Tables.wrap_dispatch_agree", "Psec.Tables.unwrap_dispatch_agree"]   # model = tables regenerated from the source (harness/tables.py)
 TRUSTED_BASE = ["Lean 4.33 kernel", "hypothesis Ciphers.Lawful", "correspondence harness (entropy interposed) and compiled driver", "Python str/bytes/dict semantics as modelled in Py.lean"]
@@ -101,6 +102,20 @@ def generate(rng, tier, seed):
         for _ in range(12 if tier == "quick" else 60):
             c = Case(f"{ver}:reused-object:overlapping-blocks", {})
             overlapping_reuse(c, rng, ver)
+            yield c
+    from props.tr31util import self_referential
+    for ver in "ABCD":
+        for h, key, mask, note in self_referential(rng, ver):
+            c = Case(f"{ver}:self-referential-length-digits", {"note": note})
+            before = header_tuple(h)
+            kbpk = rb(rng, 16)
+            w = wrap_case(c, kbpk, h, key, mask)
+            if w.ok:
+                u = unwrap_case(c, kbpk, w.value)
+                if not u.ok:
+                    c.fail(f"unwrap of a freshly wrapped block raised {u.err} ({note})")
+                elif u.value[1] != key or header_tuple(u.value[0]) != before:
+                    c.fail(f"round trip changed the key or header ({note})")
             yield c
     from props.tr31util import boundary_cases
     for ver in "BD":
